@@ -267,7 +267,7 @@ def judge_traces(ctx, traces, stats, strict_sample):
     for t in traces:
         meta = getattr(t, "meta", {})
         for ev, pkg, an, text in t.errors[:10]:
-            ctx.violation(vlib.canon_key({"error": ev, "an": an, "text": text[:60]}),
+            ctx.violation(vlib.canon_key({"error": ev, "an": an, "text": re.sub(r"/\S+?\.go:\d+(:\d+)?", "<pos>", text)[:80]}),
                           "%s in %s%s on buildable code: %s" % (ev, pkg, ("/" + an) if an else "", text[:300]),
                           {"kind": "analyzer-error", "event": ev, "pkg": pkg, "analyzer": an, "text": text, "meta": meta})
         if t.failed_pkgs or t.graph["cfailed"]:
